@@ -94,6 +94,22 @@ Theorem C01_derived_object_is_a_copy : forall w i f v, view w i = Some v ->
 Proof. exact derived_object_is_a_copy. Qed.
 Print Assumptions C01_derived_object_is_a_copy.
 
+(* round 7: clouds made INDEPENDENTLY while others are live (laspy.create(), LasData(LasHeader()) with the defaults, laspy.read):
+   a new LasData on a new header object and a new format object; it holds what it was made with *)
+Theorem C01_created_object_is_as_given : forall w f vl evl d recs,
+  view (create w f vl evl d recs) (length (dw_objs w)) = Some (mkDV f vl evl d recs).
+Proof. exact created_object_is_as_given. Qed.
+Print Assumptions C01_created_object_is_as_given.
+
+(* ... and whatever is made and done afterwards that is not an operation on that cloud itself - a second cloud made the same way,
+   the second cloud's header edited through any setter, further clouds made, selected, converted - it writes the file of exactly
+   what it was made with (DCreate is one of the operations `ops` ranges over) *)
+Theorem C01_created_cloud_keeps_its_file : forall ap w f vl evl d recs ops, sep w ->
+  (forall op, In op ops -> target op <> Some (length (dw_objs w))) ->
+  write_obj ap (fst (drun ap (create w f vl evl d recs) ops)) (length (dw_objs w)) = write_view ap (mkDV f vl evl d recs).
+Proof. exact created_cloud_keeps_its_file. Qed.
+Print Assumptions C01_created_cloud_keeps_its_file.
+
 (* what any of these objects writes is the one-shot file of what it refers to: C01_roundtrip / C01_rewrite_idempotent apply *)
 Theorem C01_write_is_file_of : forall ap w j v, view w j = Some v ->
   write_obj ap w j = file_of ap (hdr_of (dv_fields v) (dv_fmt v)) (dv_vlrs v) (fd_id (dv_fmt v)) (dv_recs v)
